@@ -276,6 +276,14 @@ func RunParent(p *Prop, thorough bool, seed int64) int {
 	if flaky > 0 && len(fresh) == 0 {
 		return 2
 	}
+	for _, n := range notes {
+		if strings.Contains(n, "died before the first case") || strings.Contains(n, "exited between cases") {
+			if len(fresh) == 0 {
+				fmt.Println("HARNESS-ERROR: a worker died outside any case (bug in the check itself, not a property violation)")
+				return 2
+			}
+		}
+	}
 	if len(fresh) > 0 {
 		return 1
 	}
